@@ -858,9 +858,44 @@ class SymBytes:
       s = self.simplified()
       if isinstance(s, bytes): return s.decode(enc, errors)
       if bool(And(*[(c < 128) for c in self.b if isinstance(c, SymInt)])): return SymStr(self)
-      raise Inconclusive("decode(%s) of possibly non-ASCII symbolic bytes" % enc)
+      if errors != 'strict' or enc.lower().replace('_', '-') not in ('utf-8', 'utf8'):
+        raise Inconclusive("decode(%s) of possibly non-ASCII symbolic bytes" % enc)
+      # some byte is >= 0x80: exact UTF-8 well-formedness (RFC 3629) of the whole buffer as one formula, decided once
+      if not bool(_utf8_valid(self.b)):
+        raise UnicodeDecodeError('utf-8', b'\x80', 0, 1, 'invalid utf-8 (symbolic bytes)')
+      return NonAsciiText()
     return self.concretize().decode(enc, errors)
   def join(self, it): raise Inconclusive("SymBytes.join")
+
+
+class NonAsciiText:
+  """result of decoding symbolic bytes that are well-formed UTF-8 with at least one non-ASCII character.  Only its existence is modelled
+  (consumers that reject every non-ASCII text, e.g. inet_aton, may take it); any other use is inconclusive."""
+  def _no(self, *a, **k): raise Inconclusive("operation on symbolic non-ASCII text")
+  __len__ = __getitem__ = __iter__ = __add__ = __radd__ = __eq__ = __ne__ = __hash__ = __str__ = __repr__ = __contains__ = __mod__ = _no
+  split = strip = lower = upper = encode = startswith = endswith = find = replace = format = isdigit = count = _no
+
+
+def _utf8_valid(bs):
+  """Bool term: the byte sequence is well-formed UTF-8 (dynamic programme from the end over 1..4-byte forms)"""
+  n = len(bs)
+  def rng(x, lo, hi): return And(x >= lo, x <= hi)
+  valid = [None] * (n + 1)
+  valid[n] = True
+  for i in range(n - 1, -1, -1):
+    b0 = bs[i]; alts = [And(b0 <= 0x7f, valid[i + 1])]
+    if i + 1 < n:
+      alts.append(And(rng(b0, 0xc2, 0xdf), rng(bs[i + 1], 0x80, 0xbf), valid[i + 2]))
+    if i + 2 < n:
+      b1, b2 = bs[i + 1], bs[i + 2]; t2 = rng(b2, 0x80, 0xbf)
+      alts.append(And(Or(And(b0 == 0xe0, rng(b1, 0xa0, 0xbf)), And(Or(rng(b0, 0xe1, 0xec), rng(b0, 0xee, 0xef)), rng(b1, 0x80, 0xbf)),
+                         And(b0 == 0xed, rng(b1, 0x80, 0x9f))), t2, valid[i + 3]))
+    if i + 3 < n:
+      b1, b2, b3 = bs[i + 1], bs[i + 2], bs[i + 3]
+      alts.append(And(Or(And(b0 == 0xf0, rng(b1, 0x90, 0xbf)), And(rng(b0, 0xf1, 0xf3), rng(b1, 0x80, 0xbf)), And(b0 == 0xf4, rng(b1, 0x80, 0x8f))),
+                      rng(b2, 0x80, 0xbf), rng(b3, 0x80, 0xbf), valid[i + 4]))
+    valid[i] = Or(*alts)
+  return valid[0]
 
 
 import re as _re
